@@ -233,12 +233,15 @@ Inductive sort_site :=
 | SortUnknown.
 
 (* ambient reads in the Python sources *)
-Inductive read_kind := RClock | RCwd | RResolve | REnviron | RPlatform | RRandom.
+Inductive read_kind := RClock | RCwd | RResolve | RAbsPath | REnviron | RPlatform | RRandom.
 Inductive read_site :=
 | RdNowUtc            (* jinja/__init__.py _generate_code: self._env.now_utc = utcnow() *)
 | RdNowUtcInit        (* jinja/environment.py: now_utc = datetime(MINYEAR, 1, 1) -- a constant *)
 | RdNsSourceFolder    (* _namespace.py Namespace.__init__: _source_folder = (...).resolve(); template-visible only as source_file_path *)
-| RdListResolve       (* cli/runners.py: p.resolve() for --list-inputs/--list-outputs (no file content) *)
+| RdListResolve       (* (old name of RdListing) *)
+| RdListing           (* the path flows only into the stdout lister / print: --list-inputs, --list-outputs; no file content *)
+| RdCompareOnly       (* the path is an operand of ==/!=: a boolean that is the same for two relocated copies *)
+| RdDiagnostic        (* the path flows only into a logger call or an exception message *)
 | RdIncludeResolve    (* jinja/__init__.py filter_type_to_include_path under `if resolve:`; template-visible: KAbsSrc site *)
 | RdPlatform          (* jinja/environment.py _create_platform_version (sf_platform_gated) *)
 | RdEnvIncludes       (* cli/__init__.py _extra_includes_from_env: an INPUT (lookup directories), not ambient state of the property *)
